@@ -153,19 +153,34 @@ def run_cases(name, master, tier, n, workers=None):
     workers = workers or int(os.environ.get("VERIF_WORKERS", min(16, os.cpu_count() or 1)))
     chunk = max(1, min(64, n // (workers * 4) or 1))
     chunks = [list(range(s, min(n, s + chunk))) for s in range(0, n, chunk)]
-    results = [None] * n
+    return list(iter_cases(name, master, tier, n, workers))
+
+
+def iter_cases(name, master, tier, n, workers=None):
+    """Yield results in index order (chunks are consumed in submission order, so neither the worker
+    count nor completion order can change what the caller sees)."""
+    workers = workers or int(os.environ.get("VERIF_WORKERS", min(16, os.cpu_count() or 1)))
+    chunk = max(1, min(64, n // (workers * 4) or 1))
+    chunks = [list(range(s, min(n, s + chunk))) for s in range(0, n, chunk)]
     if workers == 1:
         for c in chunks:
             for r in _worker_chunk((name, master, tier, c)):
-                results[r["i"]] = r
-        return results
+                yield r
+        return
     ctx = multiprocessing.get_context("fork")
     with cf.ProcessPoolExecutor(max_workers=workers, mp_context=ctx) as ex:
-        futs = [ex.submit(_worker_chunk, (name, master, tier, c)) for c in chunks]
-        for f in futs:
-            for r in f.result(timeout=3600):
-                results[r["i"]] = r
-    return results
+        window = workers * 6
+        futs = []
+        nxt = 0
+        done = 0
+        while done < len(chunks):
+            while nxt < len(chunks) and nxt - done < window:
+                futs.append(ex.submit(_worker_chunk, (name, master, tier, chunks[nxt])))
+                nxt += 1
+            for r in futs[done].result(timeout=7200):
+                yield r
+            futs[done] = None
+            done += 1
 
 
 # ---------------------------------------------------------------------------------------
@@ -271,12 +286,9 @@ def run_check(name, tier):
         else:
             print("note: finding %s no longer reproduces from its witness" % f["id"])
 
-    results = run_cases(name, master, tier, n)
-    harness = [r for r in results if r.get("harness_error")]
-    if harness:
-        print("HARNESS-ERROR in %d runs; first (run %d):\n%s" % (len(harness), harness[0]["i"],
-                                                                   harness[0]["harness_error"]))
-        return 2
+    results = iter_cases(name, master, tier, n)
+    harness = []
+    nres = 0
 
     faults, probes, sigs, nontrivial = {}, {}, set(), set()
     events = 0
@@ -288,6 +300,10 @@ def run_check(name, tier):
     survey, survey_ex = {}, {}
     raw_seen = set()
     for r in results:
+        nres += 1
+        if r.get("harness_error"):
+            harness.append(r)
+            continue
         digest.update(str(r.get("digest")).encode())
         for k, v in r.get("faults", {}).items():
             faults[k] = faults.get(k, 0) + v
@@ -332,6 +348,10 @@ def run_check(name, tier):
                 n_viol += 1
                 exit_code = 1
 
+    if harness:
+        print("HARNESS-ERROR in %d runs; first (run %d):\n%s" % (len(harness), harness[0]["i"],
+                                                                   harness[0]["harness_error"]))
+        return 2
     if survey:
         for k, n in sorted(survey.items(), key=lambda kv: -kv[1]):
             print("SURVEY %5d %s %s %s   e.g. run %d: %s" % (n, k[0], k[1], k[2], survey_ex[k][0], survey_ex[k][1][:150]))
@@ -345,12 +365,12 @@ def run_check(name, tier):
         "wall_s": round(wall, 2),
         "violations": n_viol,
         "coverage": {
-            "evaluations": len(results),
+            "evaluations": nres,
             "distinct_nontrivial": len(nontrivial),
             "rule": chk.rule,
             "samples": samples[:3],
-            "runs_per_hour": int(len(results) / max(wall, 1e-6) * 3600),
-            "seeds_per_hour": int(len(results) / max(wall, 1e-6) * 3600),
+            "runs_per_hour": int(nres / max(wall, 1e-6) * 3600),
+            "seeds_per_hour": int(nres / max(wall, 1e-6) * 3600),
             "simulated_events": events,
             "simulated_time_note": "no clock exists in pysnark; simulated time is counted in events "
                                    "(API statements, backend seam calls, I/O operations)",
@@ -369,5 +389,5 @@ def run_check(name, tier):
     with open(os.path.join(VERIF, "evidence", prop + ".json"), "w") as f:
         json.dump(ev, f, indent=1, sort_keys=True, default=str)
     print("done: runs=%d nontrivial=%d violations=%d known=%s wall=%.1fs digest=%s" % (
-        len(results), len(nontrivial), n_viol, known_seen, wall, ev["coverage"]["batch_digest"]))
+        nres, len(nontrivial), n_viol, known_seen, wall, ev["coverage"]["batch_digest"]))
     return exit_code
